@@ -8,6 +8,7 @@ import (
 	"regexp"
 	"sort"
 	"strings"
+	"time"
 )
 
 // RaceEnv makes a race-build worker die on the first report with a
@@ -204,7 +205,11 @@ func fullTape(e Engine, runSeed uint64, opt RunOpt) []uint32 {
 // MinimiseSubprocess shrinks a tape whose violation only shows in another
 // binary (the race build).
 func MinimiseSubprocess(bin string, e Engine, v *Violation, opt RunOpt, maxExec int) *Violation {
+	deadline := time.Now().Add(45 * time.Second)
 	test := func(tp []uint32) bool {
+		if time.Now().After(deadline) {
+			return false
+		}
 		r, err := ExecSubprocess(bin, e.ID(), opt, tp, nil)
 		return err == nil && r != nil && r.Sig == v.Sig
 	}
